@@ -558,6 +558,11 @@ def find_returns(body):
     return out
 
 
+def find_keyword(body, word):
+    """offsets of a keyword token (e.g. `continue`) in code, comments and strings excluded"""
+    return [b for tk, b, e in sig_tokens(body) if tk == 'ident' and body[b:e] == word]
+
+
 def fn_signature_parts(text):
     """text = fn item text from `fn`/`pub fn` ... to end. returns (sig_end=body_open index, ret_span or None, where_pos or None)"""
     it = parse_items(text, limit=1)[0]
